@@ -582,6 +582,7 @@ func (d *DiskQueue) ioLoop() {
 			r = nil
 		}
 
+		d.verifCrashPoint("idle")
 		select {
 		// the Go channel spec dictates that nil channel operations (read or write)
 		// in a select are skipped, we set r to d.readChan only when there is data to read
